@@ -7,7 +7,8 @@ import ast
 
 from vflib.parts import CH, SMT
 
-SPECIAL_KEYS = ['say "hi"', "back\\slash", "it's", 'a"b\\c', "tab\tkey", "new\nline", "emoji\U0001F600key", "naïve café", "q?mark", "dollar$"]
+SPECIAL_KEYS = ['say "hi"', "back\\slash", "it's", 'a"b\\c', "tab\tkey", "new\nline", "emoji\U0001F600key", "naïve café", "q?mark", "dollar$",
+                "line\u2028sep", "nel\x85key", "tab\tastral\U0001F600", "#1st", "family \U0001F468\u200d\U0001F469"]
 
 
 def _alias_expr():
@@ -207,9 +208,9 @@ def parts(tier):
                 CH("class_names_vs_root_names", "vflib.props.c03:scen_roots", {"frameworks": ["pydantic", "dataclasses"]}, shards=10, timeout=170, path_timeout=30),
                 CH("labels_alphabet", "vflib.props.c11:scen_labels", {"maxlen": 3}, shards=16, timeout=170, path_timeout=30)]
     return [SMT("quoting", "vflib.props.c11:kernel_quoting", {}, timeout=200, mode="SMT-S"),
-            CH("keys", "vflib.props.c11:scen_keys", {"pool": "full"}, shards=16, timeout=700, path_timeout=30),
-            CH("class_names_vs_root_names", "vflib.props.c03:scen_roots", {}, shards=10, timeout=600, path_timeout=30),
-            CH("labels_alphabet", "vflib.props.c11:scen_labels", {"maxlen": 4}, shards=16, timeout=900, path_timeout=60)]
+            CH("keys", "vflib.props.c11:scen_keys", {"pool": "full"}, shards=16, timeout=400, path_timeout=30),
+            CH("class_names_vs_root_names", "vflib.props.c03:scen_roots", {}, shards=10, timeout=400, path_timeout=30),
+            CH("labels_alphabet", "vflib.props.c11:scen_labels", {"maxlen": 4}, shards=16, timeout=400, path_timeout=60)]
 
 
 META = {
